@@ -775,6 +775,19 @@ def rule_o7(F):
     return r
 
 
+def rule_o8(F):
+    """Only the selected arm runs: the machine code of a `match` dispatch selects a branch by EQUALITY with that branch's index.  A
+    one-branch Switch emitted as `brif value` runs the arm for every non-zero discriminant (`match e { B(..) => .., _ => .. }` on a
+    three-variant enum: the B arm and its guards run for C).  Shared with C01.T9."""
+    from . import c01
+    r = c01.rule_t9(F)
+    r.rule = "C08.O8"
+    r.desc = "codegen of Switch: a branch is taken only for its own index (only the selected match arm and its guards run)"
+    for v in r.violations:
+        v.rule = "C08.O8"
+    return r
+
+
 def rules(ctx):
     F = ctx["F"]
-    return [rule_o1(F), rule_o2(F), rule_o3(F), rule_o4(F), rule_o5(F), rule_o6(F), rule_o7(F)]
+    return [rule_o1(F), rule_o2(F), rule_o3(F), rule_o4(F), rule_o5(F), rule_o6(F), rule_o7(F), rule_o8(F)]
